@@ -1,7 +1,7 @@
 (* C24 — Concurrently created Salsa structs receive distinct identities.
    Page-allocation model (Alloc/Model.v). *)
 From Salsa Require Import Base.
-From Salsa.Alloc Require Import PageK Model Examples.
+From Salsa.Alloc Require Import Model Examples.
 
 Theorem C24_distinct :
   (forall s, areach s -> NoDup (map fst (a_ret s))) /\
